@@ -45,6 +45,23 @@ def digest (s : Layout) : String :=
   let hi := commaSep (s.histInputs.map fun (c, t) => s!"{c.1}.{c.2}@{t}")
   s!"dl={s.defaultLayer};st=[{commaSep (s.states.map fmtState)}];w={w};ew=[{commaSep (s.extraWaiting.map fmtWaiting)}];tde={tde};q=[{q}];os={os};lpt={s.lptCoord.1}.{s.lptCoord.2}/{s.lptTapHoldTimeout};as=[{as}];aq={s.actionQueue.length};hk=[{hk}];hi=[{hi}]"
 
+def fmtAch (a : ActiveChord) : String :=
+  let st := match a.status with
+    | .unread => "U" | .unreadReleased => "UR" | .releasable => "R" | .released => "X"
+  s!"{a.coordinate}/{st}/{a.delay}/{".".intercalate (a.remaining.map toString)}/{".".intercalate (a.keys.map toString)}"
+
+/-- same format as `ChordsV2::verif_digest_chv2` (hook in keyberon/src/chord.rs) -/
+def digestV2 (c : ChV2) : String :=
+  let q := commaSep (c.queue.map fun q => match q.ev with
+    | .press c => s!"p{c.1}.{c.2}@{q.since}"
+    | .release c => s!"r{c.1}.{c.2}@{q.since}")
+  s!"q=[{q}];ac=[{commaSep (c.active.map fmtAch)}];ti={c.ticksToIgnore};tu={c.ticksUntilChange};pl={c.prevActiveLayer};pq={c.prevQueueLen};nc={c.nextCoord}"
+
+def digestFull (s : LayoutV2) : String :=
+  match s.chv2 with
+  | some c => s!"{digest s.lay};v2={digestV2 c}"
+  | none => digest s.lay
+
 def crashName : Crash → String
   | .fuelOut => "fuelOut"
   | .transUnresolved => "transUnresolved"
@@ -53,21 +70,21 @@ def crashName : Crash → String
   | .switchCrash _ => "switchCrash"
 
 structure Run where
-  s : Layout
+  s : LayoutV2
   tick : Nat := 0
   prev : List Nat := []
   out : Array String := #[]
 
 def stepTick (dbg : Bool) (r : Run) : Except Crash Run := do
-  let (s, ce) ← tick r.s
+  let (s, ce) ← r.s.tick
   let t := r.tick + 1
-  let keys := s.keycodes
+  let keys := s.lay.keycodes
   let cs := match ce with
     | .noEvent => ""
     | .press id => s!" cp{id}"
     | .release id => s!" cr{id}"
   let out := if keys != r.prev || cs != "" then r.out.push s!"@{t} K{fmtKeys keys}{cs}" else r.out
-  let out := if dbg then out.push s!"#{t} {digest s}" else out
+  let out := if dbg then out.push s!"#{t} {digestFull s}" else out
   pure { s, tick := t, prev := keys, out }
 
 def ticks (dbg : Bool) : Nat → Run → Except Crash Run
@@ -96,8 +113,8 @@ def modelOut (c : Case) : String :=
   match c.layout with
   | none => "rej"
   | some l =>
-    match runHist c.dbg c.hist { s := l } with
-    | .ok r => " ".intercalate (r.out.push s!"D {digest r.s}").toList
+    match runHist c.dbg c.hist { s := { lay := l, chv2 := c.chv2.map fun cfg => { cfg } } } with
+    | .ok r => " ".intercalate (r.out.push s!"D {digestFull r.s}").toList
     | .error (cr, _) => s!"crash {crashName cr}"
 
 def run (tag : String) (line : String) : String × String :=
